@@ -13,13 +13,57 @@ class StaticObligation:
         self.oid, self.ok, self.where, self.lineno, self.note = oid, bool(ok), where, lineno, note
 
 
+def _gen_worker(job):
+    """Generate the obligations of one contract in a worker process (z3 terms are not picklable:
+    the SMT-LIB text is what travels)."""
+    name, repo = job
+    import hashlib
+    from props import ALL_CONTRACTS, build_registry
+    reg = build_registry()
+    rep = verify(ALL_CONTRACTS[name], reg, repo)
+    items = []
+    for ob in rep.obligations:
+        text = ob.smt2()
+        items.append(dict(oid=ob.oid, kind=ob.kind, lineno=ob.lineno, hash=hashlib.sha1(text.encode()).hexdigest()[:16],
+                          smt2=text, note=ob.note))
+    summary = dict(name=rep.name, status=rep.status, reason=rep.reason, paths=rep.paths, cases=rep.cases,
+                   source_hash=rep.source_hash, gen_s=rep.gen_s, n_obligations=len(items))
+    return summary, items, sorted(reg.used)
+
+
+class Report:
+    def __init__(self, d):
+        self.__dict__.update(d)
+        self.obligations = [None] * d["n_obligations"]
+        self.vacuity = []
+
+
 def prove(contracts, registry, repo=None, timeout_ms=20000, statics=(), cvc5_all=False):
+    import multiprocessing as mp
+    from .solve import discharge_texts
     t0 = time.time()
-    reports = [verify(c, registry, repo) for c in contracts]
-    obls = []
-    for r in reports:
-        obls.extend(r.obligations)
-    results = discharge(obls, timeout_ms=timeout_ms, cvc5_all=cvc5_all) if obls else []
+    jobs = [(c.name, repo) for c in contracts]
+    reports, items = [], []
+    if jobs:
+        with mp.get_context("fork").Pool(min(16, len(jobs))) as pool:
+            for summary, its, used in pool.map(_gen_worker, jobs):
+                reports.append(Report(summary))
+                items.extend(its)
+                registry.used.update(used)
+    results = discharge_texts(items, timeout_ms=timeout_ms, cvc5_all=cvc5_all) if items else []
+    # vacuity queries: `False` must not be provable; they are not counted as obligations
+    kept = []
+    for d in results:
+        if d["kind"] == "vacuity":
+            fn = d["oid"].split("#")[0].split("[")[0]
+            for r in reports:
+                if r.name == fn:
+                    r.vacuity.append((d["oid"], d.get("z3")))
+                    if d["verdict"] == "discharged":
+                        r.status, r.reason = "vacuous", f"{d['oid']}: precondition is contradictory"
+            continue
+        kept.append(d)
+    results = kept
     for s in statics:
         results.append(dict(oid=s.oid, kind="static", lineno=s.lineno, hash="", smt2="",
                             verdict="discharged" if s.ok else "refuted", backend="ast-scan",
